@@ -400,5 +400,114 @@ theorem condenseStatic_isotope (a c : Annotation) (L : Option (List Mod)) (h : c
     | error e => simp [hp] at h
     | ok m => simp [hp] at h ⊢; subst h; rfl
 
+/-! ### the label shift depends on the counts only, and is additive in them -/
+
+/-- one relabelling step on a count function -/
+def relabelG (g : List Char → ℚ) (el lab : List Char) : List Char → ℚ :=
+  if el = lab then g else fun x => if x = el then 0 else g x + (if x = lab then g el else 0)
+
+/-- the label shift of a count function -/
+def shiftG (em : List Char → ℚ) : (List Char → ℚ) → LabelMap → ℚ
+  | _, [] => 0
+  | g, (el, lab) :: r => g el * (em lab - em el) + shiftG em (relabelG g el lab) r
+
+theorem compGet_relabel1_G (c : Comp) (el lab : List Char) :
+    compGet (relabel1 c el lab) = relabelG (compGet c) el lab := by
+  funext x
+  rw [compGet_relabel1]
+  unfold relabelG
+  by_cases he : el = lab
+  · simp [he]
+  · simp only [if_neg he, ne_eq, he, not_false_eq_true, and_true]
+    cases hh : compHas c el with
+    | true => simp
+    | false =>
+      have h0 := compGet_of_not_has c el hh
+      by_cases hx : x = el
+      · subst hx; simp [h0]
+      · simp [hx, h0]
+
+theorem labelShift_eq_shiftG (em : List Char → ℚ) (lm : LabelMap) (c : Comp) :
+    labelShift em c lm = shiftG em (compGet c) lm := by
+  induction lm generalizing c with
+  | nil => rfl
+  | cons p lm ih =>
+    obtain ⟨el, lab⟩ := p
+    simp only [labelShift, shiftG, ih, compGet_relabel1_G]
+
+theorem relabelG_add (g h : List Char → ℚ) (el lab : List Char) :
+    relabelG (fun x => g x + h x) el lab = fun x => relabelG g el lab x + relabelG h el lab x := by
+  unfold relabelG
+  by_cases he : el = lab
+  · simp [he]
+  · simp only [if_neg he]
+    funext x
+    by_cases hx : x = el
+    · simp [hx]
+    · by_cases hl : x = lab
+      · subst hl
+        have : ¬ x = el := hx
+        simp only [if_neg this, if_true]; ring
+      · simp [hx, hl]
+
+theorem shiftG_add (em : List Char → ℚ) (lm : LabelMap) (g h : List Char → ℚ) :
+    shiftG em (fun x => g x + h x) lm = shiftG em g lm + shiftG em h lm := by
+  induction lm generalizing g h with
+  | nil => simp [shiftG]
+  | cons p lm ih =>
+    obtain ⟨el, lab⟩ := p
+    simp only [shiftG, relabelG_add, ih]; ring
+
+theorem shiftG_zero (em : List Char → ℚ) (lm : LabelMap) : shiftG em (fun _ => 0) lm = 0 := by
+  induction lm with
+  | nil => rfl
+  | cons p lm ih =>
+    obtain ⟨el, lab⟩ := p
+    have : relabelG (fun _ => (0 : ℚ)) el lab = fun _ => 0 := by
+      unfold relabelG; split
+      · rfl
+      · funext x; simp
+    simp only [shiftG, this, ih]; ring
+
+/-- the total count of a key over all entries (for a dict with distinct keys: its entry) -/
+def compTotal (d : Comp) (x : List Char) : ℚ :=
+  match d with
+  | [] => 0
+  | (k, v) :: r => (if k = x then v else 0) + compTotal r x
+
+theorem compTotal_eq_get (d : Comp) (x : List Char) (hn : NodupKeys d) : compTotal d x = compGet d x := by
+  induction d with
+  | nil => rfl
+  | cons p d ih =>
+    obtain ⟨k, v⟩ := p
+    have hn' : NodupKeys d := (List.nodup_cons.mp hn).2
+    have hnot : k ∉ d.map (·.1) := (List.nodup_cons.mp hn).1
+    simp only [compTotal, compGet]
+    by_cases h : k = x
+    · subst h
+      have hz : compHas d k = false := by
+        cases hh : compHas d k with
+        | false => rfl
+        | true => exact absurd ((compHas_eq_true d k).mp hh) hnot
+      rw [ih hn', compGet_of_not_has d k hz]; simp
+    · simp [h, ih hn']
+
+theorem compGet_foldl (d c : Comp) (x : List Char) :
+    compGet (d.foldl (fun acc p => compAdd1 acc p.1 p.2) c) x = compGet c x + compTotal d x := by
+  induction d generalizing c with
+  | nil => simp [compTotal]
+  | cons p d ih =>
+    obtain ⟨k, v⟩ := p
+    simp only [List.foldl_cons, ih, compGet_compAdd1, compTotal]
+    by_cases h : k = x
+    · subst h; simp; ring
+    · have : ¬ x = k := fun e => h e.symm
+      simp [h, this]
+
+theorem compGet_compAdd (c d : Comp) (x : List Char) (hn : NodupKeys d) :
+    compGet (compAdd c d) x = compGet c x + compGet d x := by
+  unfold compAdd
+  rw [compGet_foldl, compTotal_eq_get d x hn]
+
 end AbsMass
 end Pept
